@@ -428,8 +428,19 @@ def main(argv):
                 total.merge(r)
         else:
             ctxm = mp.get_context("spawn")
+            # A wall-clock limit per shard only protects the harness against a hang in the code under test; hitting
+            # it is reported as inconclusive (exit 2), never as a violation.
+            limit = float(os.environ.get("VERIF_SHARD_TIMEOUT", "1800" if tier == "quick" else "10800"))
             with ctxm.Pool(nproc, maxtasksperchild=getattr(mod, "MAXTASKS", None)) as pool:
-                for r in pool.imap_unordered(_shard_worker, jobs, chunksize=1):
+                it = pool.imap_unordered(_shard_worker, jobs, chunksize=1)
+                for _ in range(len(jobs)):
+                    try:
+                        r = it.next(timeout=limit)
+                    except mp.TimeoutError:
+                        pool.terminate()
+                        print("HARNESS-ERROR property=%s a shard did not finish within %.0f s (possible non-termination "
+                              "in the code under test): inconclusive" % (prop, limit))
+                        return 2
                     total.merge(r)
     if total.harness_errors:
         for h in total.harness_errors[:3]:
